@@ -2,7 +2,7 @@
 
 
 def run(ctx):
-    ctx.lean_obligations(["SV.Props.C16"], drivers=["svdriver_c16"])
+    ctx.lean_obligations(["SV.Props.C16", "SV.Props.C16b"], drivers=["svdriver_c16"])
     quick = ctx.tier == "quick"
     b = ctx.go_test_binary("store", "h_store")
     if b:
@@ -11,6 +11,9 @@ def run(ctx):
         # that its stream comparison stays strict
         ctx.correspond(b, "TestVerifC16Known", "svdriver_c16", "c16known",
                        env={"VERIF_N": 40 if quick else 300}, timeout=900)
+        # C16b: the FUSE node layer of store/fs.go through the real go-fuse bridge (model SV.StoreFs)
+        ctx.correspond(b, "TestVerifC16b", "svdriver_c16", "c16b",
+                       env={"VERIF_N": 60 if quick else 500}, timeout=900)
         if quick:
             ctx.correspond(b, "TestVerifC16", "svdriver_c16", "c16",
                            env={"VERIF_N": 150, "VERIF_RACE": 8}, timeout=900)
@@ -28,6 +31,16 @@ def run(ctx):
     ctx.notes.append("observation (not a clause of C16): getLayer's per-layer workers that find the wanted layer after it "
                      "was delivered stay parked for ever on `resultChan <- gotL` (goroutine leak), and workers can still "
                      "run after getLayer returned; the harness waits for them by inspecting goroutine stacks")
+    ctx.notes.append("candidate finding (C16b, own signature sfs-id-leaked-lookup-after-release; counted, not a violation; "
+                     "VERIF_C16B_REPORT=1 reports it): a LOOKUP in a layer directory whose last use was released while the kernel "
+                     "still holds the directory creates a persistent child of an unlinked inode; nobody runs RmAllChildren on it "
+                     "again, so the directory, the child (incl. the layer's own root node) and their nodeMap ids stay for ever "
+                     "(model: SV.Props.C16b.lookup_in_released_layer_dir_leaks / noLeak_fails)")
+    ctx.notes.append("candidate finding (C16b, sfs-id-leaked-silent-rmdir): RMDIR on a directory without Rmdir handler (mountpoint "
+                     "root, layer directory) is answered OK by the go-fuse bridge, which unlinks the persistent child: the subtree "
+                     "and its nodeMap ids are never freed")
+    ctx.notes.append("observation (C16b): fs.layerMap ids are never removed (idMap.remove is only called on nodeMap): one id per "
+                     "successful or failed `diff` lookup that reaches RootNode")
     return ctx.finish(
         level="proof",
         rule="hand-written scenarios (lookup/use/release/lookup, sibling in use, release twice, release untracked, "
@@ -40,7 +53,15 @@ def run(ctx):
              "per manifest and ~20% of the API lookups abandoned by their client; after every op the full bookkeeping (cached instances, counts, resolve status, Done set, "
              "refPool counts, pool directory) is compared with the model and the property predicate is evaluated "
              "on the real LayerManager; a history is distinct by its op/argument shape; racing lookups on one "
-             "image are checked by the oracle and by the state they leave",
+             "image are checked by the oracle and by the state they leave; "
+             "C16b: the FUSE node layer of store/fs.go driven through the real go-fuse bridge (NewNodeFS: Lookup / Forget / Create / "
+             "Rmdir on node ids, the harness plays the kernel): hand-written scenarios (use-release-forget-relookup, forget before "
+             "release, failing lookups at every level, two layers of one image, lookup in a released layer directory, rmdir on nodes "
+             "without handler) then random request histories over all held nodes x all name classes with registry failures; after "
+             "every request the reply (errno, node id, inode number), nodeMap, layerMap, the linked tree and the kernel's lookup "
+             "counts are compared with the model SV.StoreFs and the oracle checks use counts against the harness's own count of "
+             "uses, uniqueness / allocation of live inode numbers, node aliasing, failing lookups, unlinking after the last release "
+             "and id leaks after a final drain",
         assumptions=[
             "LayerManager state is only touched under LayerManager.mu and getLayer's per-layer workers are "
             "serialised per layer by resolveLock, so a schedule is a sequence of the model's atomic steps; "
@@ -49,8 +70,10 @@ def run(ctx):
             "within one image a layer digest determines its TOC digest and different layers have different TOC "
             "digests (hypotheses T.Functional / T.Injective of the theorems; the second only for histories with "
             "registry errors)",
-            "FUSE inode bookkeeping of the store tree (child caching, Forget) is not modelled: the node handlers "
-            "are driven without linking the returned children",
+            "C16b models go-fuse v2.10.1's sequential inode bookkeeping (addNewChild / removeRef / RmChild / RmAllChildren / "
+            "persistent inodes / stableAttrs); requests are sequential (two racing LOOKUPs of one name are outside), no request "
+            "is sent into a `diff` directory (that tree belongs to fs/layer), the kernel only sends requests for node ids it holds",
+            "idMap exhaustion (2^32-1 live ids) is modelled as the EIO the code returns and never exercised",
             "layer.Resolver keeps resolved layers for its TTL; the harness runs with CheckAlways so that a registry "
             "failure is visible to the next resolution",
         ])
